@@ -27,7 +27,7 @@ Definition can_uint (v : gv) : bool :=
 Definition can_int (v : gv) : bool :=
   match v with GInt k _ => is_unsigned_kind k || is_signed_kind k | _ => false end.
 Definition can_tstr (v : gv) : bool := match v with GStr _ => true | _ => false end.
-Definition can_bstr (v : gv) : bool := match v with GBytes _ | GNilBytes => true | _ => false end.
+Definition can_bstr (v : gv) : bool := match v with GBytes _ => true | _ => false end. (* a nil []byte would be written as null: refused *)
 Definition is_alg_typed (v : gv) : bool := match v with GInt KAlg _ => true | _ => false end.
 
 (* normalizeLabel: any Go integer kind -> int64 (uint64 wraps like int64(v)) *)
